@@ -3,7 +3,9 @@ import Tcs.Generated.ParamsImpl
 namespace Tcs
 
 /-! source tie, `core/src/server.rs`: see `ServerSrcTie/GetChild.lean` for what the tie says; one module per operation, so that a change to
-    one operation of the source leaves the ties of the others standing -/
+    one operation of the source leaves the ties of the others standing. The proof decides the acceptance test by cases on
+    its two comparisons, so it goes through for any logically equivalent spelling of the test (`a ≠ nil && p ≠ a`,
+    `!(a == nil || p == a)`, …), not only for the one the pinned source uses. -/
 
 theorem serverSrc_addVersion (cfg : Config) (p : Uuid) (seg : Bytes) (newId : Uuid) (now : Int) :
     ServerSrc.addVersion cfg p seg newId now = addVersion cfg p seg newId now := by
@@ -12,12 +14,10 @@ theorem serverSrc_addVersion (cfg : Config) (p : Uuid) (seg : Bytes) (newId : Uu
   cases r with
   | none => rfl
   | some client =>
-    simp only [Bool.and_eq_true, decide_eq_true_eq]
-    split
-    · rfl
-    · congr 1; funext _
-      congr 1; funext _
-      simp only [urgency]
-      cases client.snap <;> rfl
+    by_cases h1 : client.latest = Uuid.nil <;> by_cases h2 : p = client.latest <;>
+      simp [h1, h2, urgency] <;>
+      (try (first
+        | rfl
+        | (congr 1; funext _; congr 1; funext _; cases client.snap <;> rfl)))
 
 end Tcs
